@@ -155,6 +155,86 @@ pub fn compress_roundtrip(recs: &[SRecord]) -> Result<Vec<SRecord>, String> {
     parse_records(target)
 }
 
+//------------ representation conversions ---------------------------------------
+
+pub type SRrsig = domain::rdata::Rrsig<Bytes, SName>;
+type VName = Name<Vec<u8>>;
+
+/// The RRs and their RRSIG change representation, not content: "flatten" =
+/// composed into a (compressed) message, parsed as records over parsed names
+/// and flattened into owned records; "octets" = OctetsFrom conversions to
+/// Vec-based values and back.  Err(what) if anything differs afterwards.
+pub fn convert(conv: &str, recs: &[SRecord], sig: &SRrsig) -> Result<(Vec<SRecord>, SRrsig), String> {
+    use octseq::OctetsFrom;
+    let (out_recs, out_sig): (Vec<SRecord>, SRrsig) = match conv {
+        "flatten" => {
+            let mb = MessageBuilder::from_target(TreeCompressor::new(Vec::<u8>::new()))
+                .map_err(|_| "builder".to_string())?;
+            let mut ab = mb.answer();
+            for r in recs {
+                ab.push(r.clone()).map_err(|e| format!("{e}"))?;
+            }
+            let first = recs.first().ok_or("empty")?;
+            ab.push(Record::new(first.owner().clone(), first.class(), first.ttl(), sig.clone()))
+                .map_err(|e| format!("{e}"))?;
+            let all = parse_records(ab.finish().into_target())?;
+            let mut rs = vec![];
+            let mut sg = None;
+            for r in all {
+                match r.data() {
+                    ZoneRecordData::Rrsig(x) => sg = Some(x.clone()),
+                    _ => rs.push(r),
+                }
+            }
+            (rs, sg.ok_or("RRSIG lost in the message")?)
+        }
+        "octets" => {
+            let mut rs = vec![];
+            for r in recs {
+                let v: Record<VName, ZoneRecordData<Vec<u8>, VName>> =
+                    Record::try_octets_from(r.clone()).map_err(|_| "octets_from record".to_string())?;
+                let b: SRecord = Record::try_octets_from(v).map_err(|_| "octets_from record".to_string())?;
+                rs.push(b);
+            }
+            let v: domain::rdata::Rrsig<Vec<u8>, VName> =
+                domain::rdata::Rrsig::try_octets_from(sig.clone()).map_err(|_| "octets_from rrsig".to_string())?;
+            let b: SRrsig = domain::rdata::Rrsig::try_octets_from(v).map_err(|_| "octets_from rrsig".to_string())?;
+            (rs, b)
+        }
+        _ => (recs.to_vec(), sig.clone()),
+    };
+    if out_recs.len() != recs.len() || out_recs.iter().zip(recs.iter()).any(|(a, b)| a != b || a.ttl() != b.ttl()) {
+        return Err("records changed".into());
+    }
+    let same = out_sig.type_covered() == sig.type_covered()
+        && out_sig.algorithm() == sig.algorithm()
+        && out_sig.labels() == sig.labels()
+        && out_sig.original_ttl() == sig.original_ttl()
+        && out_sig.expiration().into_int() == sig.expiration().into_int()
+        && out_sig.inception().into_int() == sig.inception().into_int()
+        && out_sig.key_tag() == sig.key_tag()
+        && out_sig.signer_name().as_slice() == sig.signer_name().as_slice()
+        && out_sig.signature().as_ref() == sig.signature().as_ref();
+    if !same {
+        return Err(format!("rrsig changed: {} -> {}", sig, out_sig));
+    }
+    Ok((out_recs, out_sig))
+}
+
+pub fn convert_dnskey(conv: &str, k: &Dnskey<Vec<u8>>) -> Result<Dnskey<Vec<u8>>, String> {
+    use octseq::OctetsFrom;
+    if conv != "octets" {
+        return Ok(k.clone());
+    }
+    let b: Dnskey<Bytes> = Dnskey::try_octets_from(k.clone()).map_err(|_| "octets_from dnskey".to_string())?;
+    let v: Dnskey<Vec<u8>> = Dnskey::try_octets_from(b).map_err(|_| "octets_from dnskey".to_string())?;
+    if v.flags() != k.flags() || v.protocol() != k.protocol() || v.algorithm() != k.algorithm()
+        || v.public_key() != k.public_key() || v.key_tag() != k.key_tag() {
+        return Err("dnskey changed".into());
+    }
+    Ok(v)
+}
+
 //------------ term evaluator --------------------------------------------------
 
 /// `{"op":"oct","o":[..]}` | `{"op":"cat","of":[t..]}` |
@@ -341,6 +421,10 @@ pub mod denial {
 
     pub fn run_nsec(recs: Vec<SRecord>, apex: &SName, assume: bool) -> Result<(Value, u32, u16), String> {
         let sorted: SortedRecords<SName, SData> = SortedRecords::from(recs);
+        run_nsec_on(&sorted, apex, assume)
+    }
+
+    pub fn run_nsec_on(sorted: &SortedRecords<SName, SData>, apex: &SName, assume: bool) -> Result<(Value, u32, u16), String> {
         let mut cfg = GenerateNsecConfig::new();
         if !assume {
             cfg = cfg.without_assuming_dnskeys_will_be_added();
@@ -383,18 +467,40 @@ pub mod denial {
     pub fn run_nsec3(recs: Vec<SRecord>, apex: &SName, assume: bool, optout: &str,
                      salt: &[u8], iters: u16) -> Result<N3Out, String> {
         let sorted: SortedRecords<SName, SData> = SortedRecords::from(recs);
+        run_nsec3_on(&sorted, apex, assume, optout, salt, iters, None)
+    }
+
+    /// `setters`: the configuration is built by calling exactly these public
+    /// setter methods in this order (otherwise a fixed order derived from
+    /// assume / optout)
+    pub fn run_nsec3_on(sorted: &SortedRecords<SName, SData>, apex: &SName, assume: bool, optout: &str,
+                        salt: &[u8], iters: u16, setters: Option<Vec<String>>) -> Result<N3Out, String> {
         let salt = Nsec3Salt::from_octets(Bytes::copy_from_slice(salt)).map_err(|e| format!("{e}"))?;
         let params = Nsec3param::new(Nsec3HashAlgorithm::SHA1, 0, iters, salt);
         let mut cfg: GenerateNsec3Config<Bytes, DefaultSorter> = GenerateNsec3Config::new(params);
-        if !assume {
-            cfg = cfg.without_assuming_dnskeys_will_be_added();
-        }
-        match optout {
-            "exclude" => cfg = cfg.with_opt_out(),
-            "flagonly" => {
-                cfg = cfg.with_opt_out().without_opt_out_excluding_owner_names_of_unsigned_delegations()
+        let order: Vec<String> = match setters {
+            Some(v) => v,
+            None => {
+                let mut v = vec![];
+                if !assume {
+                    v.push("no_dnskey".to_string());
+                }
+                if optout != "none" {
+                    v.push("opt_out".to_string());
+                }
+                if optout == "flagonly" {
+                    v.push("no_exclude".to_string());
+                }
+                v
             }
-            _ => {}
+        };
+        for st in &order {
+            cfg = match st.as_str() {
+                "no_dnskey" => cfg.without_assuming_dnskeys_will_be_added(),
+                "opt_out" => cfg.with_opt_out(),
+                "no_exclude" => cfg.without_opt_out_excluding_owner_names_of_unsigned_delegations(),
+                _ => return Err("unknown setter".into()),
+            };
         }
         let out = generate_nsec3s(apex, sorted.owner_rrs(), &cfg).map_err(|e| format!("{e}"))?;
         let mut v = vec![];
@@ -423,8 +529,12 @@ pub mod denial {
         let apex = name_of(&input["apex"]);
         let salt = bytes_of(&input["salt"]);
         let iters = input["iters"].as_u64().unwrap_or(0) as u16;
-        let out = match run_nsec3(recs, &apex, input["assume"] == true,
-                                  input["optout"].as_str().unwrap_or("none"), &salt, iters) {
+        let setters = input.get("setters").and_then(|v| v.as_array()).map(|a| {
+            a.iter().map(|x| x.as_str().unwrap_or("").to_string()).collect::<Vec<_>>()
+        });
+        let sorted: SortedRecords<SName, SData> = SortedRecords::from(recs);
+        let out = match run_nsec3_on(&sorted, &apex, input["assume"] == true,
+                                     input["optout"].as_str().unwrap_or("none"), &salt, iters, setters) {
             Ok(o) => o,
             Err(e) => return json!({"err": e}),
         };
@@ -466,6 +576,69 @@ pub mod denial {
         json!({"entries": entries.into_iter().map(|e| e.1).collect::<Vec<_>>(), "linked": linked,
                "flags": flags.into_iter().next().unwrap(), "ttl": ttls.into_iter().next().unwrap(),
                "paramttl": out.param_ttl})
+    }
+
+    fn coll_json(sorted: &SortedRecords<SName, SData>) -> Value {
+        Value::Array(sorted.iter().map(|r| json!({"n": jname(r.owner()), "t": r.rtype().to_int()})).collect())
+    }
+
+    /// NSEC chain of a collection; Ok((chain json with owner names as they
+    /// stand, generated records as zone records))
+    fn nsec_on(sorted: &SortedRecords<SName, SData>, apex: &SName) -> Result<(Value, Vec<SRecord>), String> {
+        let cfg = GenerateNsecConfig::new();
+        let out = generate_nsecs(apex, sorted.owner_rrs(), &cfg).map_err(|e| format!("{e}"))?;
+        let chain: Vec<Value> = out.iter().map(|r| json!({"owner": jname(r.owner()),
+            "next": jname(r.data().next_name()), "types": types_of(r.data().types())})).collect();
+        let recs: Vec<SRecord> = out.into_iter()
+            .map(|r| Record::new(r.owner().clone(), r.class(), r.ttl(), ZoneRecordData::Nsec(r.data().clone())))
+            .collect();
+        Ok((Value::Array(chain), recs))
+    }
+
+    /// The sign-zone workflow on one SortedRecords: assemble in batches
+    /// through From<Vec> / extend / insert, generate, extend with the
+    /// generated NSEC records, generate again.  After every step: the
+    /// collection (owner, type) and the chain.
+    pub fn zonebuild_case(input: &Value) -> Value {
+        let apex = name_of(&input["apex"]);
+        let mut sorted: SortedRecords<SName, SData> = SortedRecords::new();
+        let mut steps = vec![];
+        for op in input["ops"].as_array().cloned().unwrap_or_default() {
+            let batch = match zone_records(&json!({"recs": op["batch"], "soa": {"ttl": 3600, "min": 300}})) {
+                Ok(b) => b,
+                Err(e) => return json!({"bad_batch": e}),
+            };
+            let mut chain = json!([]);
+            match op["op"].as_str().unwrap_or("") {
+                "from" => sorted = SortedRecords::from(batch),
+                "extend" => sorted.extend(batch),
+                "insert" => {
+                    for r in batch {
+                        let _ = sorted.insert(r);
+                    }
+                }
+                "gen_extend" => match nsec_on(&sorted, &apex) {
+                    Ok((c, recs)) => {
+                        chain = c;
+                        sorted.extend(recs);
+                    }
+                    Err(e) => {
+                        steps.push(json!({"err": e}));
+                        continue;
+                    }
+                },
+                "gen" => match nsec_on(&sorted, &apex) {
+                    Ok((c, _)) => chain = c,
+                    Err(e) => {
+                        steps.push(json!({"err": e}));
+                        continue;
+                    }
+                },
+                _ => return json!({"bad_op": true}),
+            }
+            steps.push(json!({"coll": coll_json(&sorted), "chain": chain}));
+        }
+        json!({"steps": steps})
     }
 
     pub fn bitmap_case(input: &Value) -> Value {
@@ -515,7 +688,14 @@ pub mod denial {
         let thorough = verif_harness::common::tier_thorough();
         let mut z = 0;
         while z < zones {
-            let apex: Vec<Vec<u8>> = if rng.chance(1, 2) { vec![b"ex".to_vec()] } else { vec![b"Zone".to_vec(), b"ex".to_vec()] };
+            let mut apex: Vec<Vec<u8>> = if rng.chance(1, 2) { vec![b"ex".to_vec()] } else { vec![b"Zone".to_vec(), b"ex".to_vec()] };
+            if rng.chance(1, 4) {
+                // an apex at the length limit: 220..222 wire octets leave just
+                // room for the 33-octet hash label
+                let w = 220 + rng.below(3) as usize;
+                let l63 = |c: u8| -> Vec<u8> { (0..63).map(|i| c + (i % 5) as u8).collect() };
+                apex = vec![(0..(w - 194)).map(|i| b'0' + (i % 10) as u8).collect(), l63(b'a'), l63(b'A'), l63(b'k')];
+            }
             // the name tree
             let mut names: Vec<Vec<Vec<u8>>> = vec![apex.clone()];
             let target = 2 + rng.below(max_names);
@@ -605,19 +785,77 @@ pub mod denial {
                 Err(_) => continue,
             };
             let apex_name = name_of(&jl(&apex));
-            let sorted: SortedRecords<SName, SData> = SortedRecords::from(lib.clone());
+            // the collection is assembled the way a caller might: at once, or
+            // in batches that repeat records (extend / insert)
+            let assembly = *rng.pick(&["from", "extend2", "insert+extend"]);
+            let mut sorted: SortedRecords<SName, SData> = match assembly {
+                "from" => SortedRecords::from(lib.clone()),
+                "extend2" => {
+                    let k = rng.below(lib.len() as u64 + 1) as usize;
+                    let mut s = SortedRecords::new();
+                    let mut b1 = lib[..k].to_vec();
+                    b1.push(lib[0].clone());
+                    s.extend(b1);
+                    let mut b2 = lib[k..].to_vec();
+                    b2.reverse();
+                    b2.push(lib[0].clone());
+                    b2.extend(lib[..k.min(3)].iter().cloned());
+                    s.extend(b2);
+                    s
+                }
+                _ => {
+                    let mut s = SortedRecords::new();
+                    for r in lib.iter().rev() {
+                        let _ = s.insert(r.clone());
+                    }
+                    s.extend(lib.iter().take(4).cloned().collect::<Vec<_>>());
+                    s
+                }
+            };
             let sorted_j: Vec<Value> = sorted.iter().map(|r| json!({"n": jname(r.owner()), "t": r.rtype().to_int()})).collect();
             // a panic of the generators is an outcome (the trace
             // specification rejects it), never a crash of the recorder
             use std::panic::{catch_unwind, AssertUnwindSafe};
-            let nsec = match catch_unwind(AssertUnwindSafe(|| run_nsec(lib.clone(), &apex_name, assume))) {
+            let nsec = match catch_unwind(AssertUnwindSafe(|| run_nsec_on(&sorted, &apex_name, assume))) {
                 Ok(Ok((c, ttl, _))) => json!({"chain": c, "ttl": ttl}),
                 Ok(Err(e)) => json!({"chain": [], "ttl": 0, "err": e}),
                 Err(_) => json!({"chain": [], "ttl": 0, "err": "panic"}),
             };
-            let n3 = match catch_unwind(AssertUnwindSafe(|| run_nsec3(lib.clone(), &apex_name, assume, optout, &salt, iters))) {
+            // the NSEC3 configuration through the public setters, in a random order
+            let mut setters: Vec<String> = vec![];
+            if !assume {
+                setters.push("no_dnskey".into());
+            }
+            if optout != "none" {
+                setters.push("opt_out".into());
+            }
+            if optout == "flagonly" {
+                setters.push("no_exclude".into());
+            }
+            for i in (1..setters.len()).rev() {
+                setters.swap(i, rng.below(i as u64 + 1) as usize);
+            }
+            let n3 = match catch_unwind(AssertUnwindSafe(|| run_nsec3_on(&sorted, &apex_name, assume, optout, &salt, iters, Some(setters.clone())))) {
                 Ok(r) => r,
                 Err(_) => Err("panic".to_string()),
+            };
+            // the workflow: extend the collection with the generated NSEC
+            // records (twice), generate again
+            let again = catch_unwind(AssertUnwindSafe(|| {
+                let s2 = &mut sorted;
+                for _ in 0..2 {
+                    let (_, recs) = nsec_on(s2, &apex_name)?;
+                    s2.extend(recs);
+                }
+                let cfg = if assume { GenerateNsecConfig::new() } else { GenerateNsecConfig::new().without_assuming_dnskeys_will_be_added() };
+                let out = generate_nsecs(&apex_name, s2.owner_rrs(), &cfg).map_err(|e| format!("{e}"))?;
+                let chain: Vec<Value> = out.iter().map(|r| json!({"owner": jname_lower(r.owner()),
+                    "next": jname_lower(r.data().next_name()), "types": types_of(r.data().types())})).collect();
+                Ok::<(Value, Value), String>((Value::Array(chain), coll_json(s2)))
+            }));
+            let (nsec_again, recs2, again_err) = match again {
+                Ok(Ok((c, r))) => (c, r, false),
+                _ => (json!([]), json!([]), true),
             };
             // candidate names: owners and all their ancestors down to the apex
             let mut cands = std::collections::BTreeSet::new();
@@ -660,6 +898,8 @@ pub mod denial {
             w.event(json!({"ev": "zone", "apex": jl(&apex), "recs": sorted_j, "assume": assume,
                            "exclude": optout == "exclude", "optflag": if optout == "none" { 0 } else { 1 },
                            "soattl": std::cmp::min(soa_ttl, soa_min),
+                           "assembly": assembly, "setters": setters,
+                           "nsec_again": nsec_again, "recs2": recs2, "again_err": again_err,
                            "nsec": nsec["chain"], "nsecttl": nsec["ttl"], "nsecerr": nsec.get("err").is_some(),
                            "nsec3": n3j["chain"], "n3flags": n3j["flags"], "n3flagsmin": n3j["flagsmin"],
                            "n3ttl": n3j["ttl"], "n3err": n3j.get("err").is_some(),
